@@ -374,7 +374,7 @@ def run(tier, seed):
                 oc.violation({'property': PROP, 'kind': 'correspondence-broken',
                               'unchecked': 'correspondence model<->implementation on histories',
                               'history': r['hist'], 'final': r['final'], 'first_difference': dis}, found_input=False)
-    sem = common.pysem_stage(oc, PROP, [], seed, tier, effects=True)
+    sem = common.pysem_stage(oc, PROP, ['facade'], seed, tier, effects=True)
     if not proof_ok and not oc.violations:
         oc.violation({'property': PROP, 'kind': 'proof-obligation-broken', 'unchecked': lean.get('failed'),
                       'build_output': lean.get('build_output', '')[-3000:]}, found_input=False)
